@@ -319,6 +319,12 @@ def check(spec, ctx):
         if abs(a_s - a12) > 1e-9:
             ctx.fail(f"affinity changes under a common time shift {dt}: {a12} -> {a_s}", spec, a_s, a12, kind="shift")
 
+    # geometries that went through pickle (a multiprocessing worker, a joblib cache): equal objects, not the same string objects inside
+    import pickle
+
+    a_pk = ctx.call(spec, "compute_affinity(unpickled geometries)", compute_affinity, pickle.loads(pickle.dumps(g1)), pickle.loads(pickle.dumps(g2)), time_buffer=tb, freq_buffer=fb)
+    if a_pk != a12:
+        ctx.fail(f"compute_affinity of the unpickled geometries = {a_pk}, of the originals = {a12}", spec, a_pk, a12, kind="pickle")
     # buffers passed positionally (documented order: geometry1, geometry2, time_buffer, freq_buffer)
     a_pos = ctx.call(spec, "compute_affinity(g1, g2, tb, fb) positional", compute_affinity, g1, g2, tb, fb)
     if a_pos != a12:
